@@ -11,7 +11,10 @@
 (* Known deviations of the code from the property layer are confined by    *)
 (* Strict = FALSE (cases where the code is expected to agree); the         *)
 (* Typelib_w_*.cfg configurations set Strict = TRUE for one kind and make  *)
-(* TLC exhibit the deviation (they are expected to FAIL).                  *)
+(* TLC exhibit the deviation (they are expected to FAIL): w_field (field   *)
+(* readable inverted, bits not written), w_sig (skip_return only written   *)
+(* for functions), w_union (union accessor arithmetic before f2204c4).     *)
+(* The real code is judged on ALL cases (TypelibCases exports Strict).     *)
 (***************************************************************************)
 EXTENDS Typelib
 
@@ -42,7 +45,8 @@ RefLeaves == {Leaf("ref", r[1], r[2], c[1], c[2], c[3]) : r \in Refs, c \in Ctyp
 ErrorLeaf == Leaf("error", "GLib", "Error", TRUE, 1, FALSE)
 SomeLeaves == {Leaf("basic", "", "gint32", FALSE, 0, FALSE), Leaf("basic", "", "utf8", TRUE, 1, FALSE),
                Leaf("basic", "", "gpointer", TRUE, 0, TRUE), Leaf("ref", "", "Rec", TRUE, 1, FALSE),
-               Leaf("ref", "GLib", "Bytes", TRUE, 1, FALSE), Leaf("ref", "", "AInt", FALSE, 0, FALSE)}
+               Leaf("ref", "GLib", "Bytes", TRUE, 1, FALSE), Leaf("ref", "", "AInt", FALSE, 0, FALSE),
+               Leaf("basic", "", "guint8", TRUE, 0, FALSE)}
 ArrayHeads == {[k |-> "array", rns |-> "", rname |-> n, hasct |-> FALSE, stars |-> 0, gptr |-> FALSE, zt |-> z, len |-> l, fsize |-> f, nchild |-> c] :
                   n \in {"", "Array", "PtrArray", "ByteArray"}, z \in Tri, l \in {-1, 0, 2}, f \in {-1, 4}, c \in {0, 1}}
 ListHeads == {[k |-> kk, rns |-> "GLib", rname |-> "", hasct |-> TRUE, stars |-> 1, gptr |-> FALSE, zt |-> "", len |-> -1, fsize |-> -1, nchild |-> c] :
@@ -68,7 +72,7 @@ RecT == <<Leaf("ref", "", "Rec", TRUE, 1, FALSE)>>
 ---------------------------------------------------------------------------
 \* the interacting attributes (direction, caller-allocates, allow-none, nullable, optional) x transfer x scope exhaustively;
 \* the four independent ones (closure, destroy, skip, retval) through a covering set of joint values
-Indep == {<<-1, -1, "", "">>, <<0, 1, "1", "1">>, <<2, -1, "1", "">>, <<-1, 1, "0", "0">>, <<127, 0, "", "1">>}
+Indep == {<<-1, -1, "", "">>, <<0, 1, "1", "1">>, <<2, -1, "1", "">>, <<-1, 1, "0", "0">>, <<1, 0, "", "1">>, <<1, 2, "", "">>}
 ArgCases == {[name |-> "a", dir |-> d, ca |-> ca, allow_none |-> an, nullable |-> nu, optional |-> op, transfer |-> tr, scope |-> sc,
               closure |-> x[1], destroy |-> x[2], skip |-> x[3], retval |-> x[4], type |-> Utf8T] :
                 d \in {"", "in", "out", "inout"}, ca \in TriQ, an \in TriQ, nu \in TriQ, op \in TriQ, tr \in {"none", "container", "full"},
@@ -95,6 +99,8 @@ PropCases == {[name |-> "p", readable |-> r, writable |-> w, construct |-> c, co
                setter |-> s, getter |-> gt, deprecated |-> "", methods |-> Methods3, type |-> ty] :
                 r \in Tri, w \in TriQ, c \in TriQ, co \in TriQ, tr \in {"", "none", "container", "full"},
                 s \in {"", "ma", "mc"}, gt \in {"", "mb"}, ty \in {Int32T, Utf8T}}
+PropAgrees(g) == g.deprecated = ""           \* start_property does not read deprecated=
+PropCasesAll == PropCases \cup {[p EXCEPT !.deprecated = "1"] : p \in {q \in PropCases : q.construct = "" /\ q.construct_only = "" /\ q.type = Int32T}}
 
 SignalCases == {[name |-> "s", when |-> w, no_recurse |-> nr, detailed |-> d, action |-> a, no_hooks |-> nh, deprecated |-> dp] :
                   w \in {"", "first", "last", "cleanup", "FIRST", "LAST", "CLEANUP"}, nr \in TriQ, d \in TriQ, a \in TriQ, nh \in TriQ, dp \in Tri}
@@ -131,7 +137,7 @@ Init == \/ kind = "arg" /\ "arg" \in Kinds /\ g \in ArgCases
         \/ kind = "type" /\ "type" \in Kinds /\ g \in TypeCases
         \/ kind = "sig" /\ "sig" \in Kinds /\ g \in (IF Strict THEN SigCases ELSE SigCasesOK)
         \/ kind = "function" /\ "function" \in Kinds /\ g \in FnCases
-        \/ kind = "property" /\ "property" \in Kinds /\ g \in PropCases
+        \/ kind = "property" /\ "property" \in Kinds /\ g \in (IF Strict THEN PropCasesAll ELSE PropCases)
         \/ kind = "signal" /\ "signal" \in Kinds /\ g \in SignalCases
         \/ kind = "vfunc" /\ "vfunc" \in Kinds /\ g \in VFuncCases
         \/ kind = "field" /\ "field" \in Kinds /\ g \in (IF Strict THEN FieldCases ELSE FieldCasesOK)
@@ -155,6 +161,10 @@ BuildEncodes ==
 IsShape == kind \in ContainerKinds
 \* Aligned4 /\ InBounds /\ NoOverlap /\ NoHole /\ ReaderMeetsWriter on one evaluation of the writer's walk
 InvLayout == IsShape => LayoutAll(kind, g)
+\* the C accessors (as transcribed in Typelib!AccessorOffset) compute the place the format prescribes.  Strict = TRUE swaps in the
+\* union arithmetic of before fix f2204c4 (plain multiplication): the what-if Typelib_w_union.cfg must exhibit a union whose field
+\* embeds a callback
+InvAccessor == IsShape => AccessorsMeetFormat(kind, g, ~Strict)
 \* sanity of the type vocabulary: what Build produces for an interface reference names a (namespace, name) pair
 InvTypeSane == kind = "type" => \A i \in 1..Len(BuildType(Env, g.ctx, g.type)) :
                   LET n == BuildType(Env, g.ctx, g.type)[i] IN (n.tag = 16) => (n.rname # "" /\ n.rns # "")
